@@ -720,9 +720,10 @@ def truth_tokens(sim) -> List[str]:
     nodes = []
     for node in sim.network.nodes.values():
         row = [T(node.config.hostname), str(node.operating_state.value)]
-        svcs = [[T(s.name), str(s.operating_state.value), str(s.health_state_actual.value), str(s.health_state_visible.value), "0"]
-                for s in node.services.values()]
-        apps = [[T(a.name), str(a.operating_state.value), str(a.health_state_actual.value), str(a.health_state_visible.value), str(a.num_executions)]
+        from primaite.simulator.system.services.ftp.ftp_service import FTPServiceABC
+        svcs = [[T(s.name), str(s.operating_state.value), str(s.health_state_actual.value), str(s.health_state_visible.value), "0",
+                 B(isinstance(s, FTPServiceABC) and not s._active)] for s in node.services.values()]
+        apps = [[T(a.name), str(a.operating_state.value), str(a.health_state_actual.value), str(a.health_state_visible.value), str(a.num_executions), "0"]
                 for a in node.applications.values()]
 
         def folder_row(f):
